@@ -5,7 +5,9 @@ computes them.  This check re-evaluates that relation *between runs*: every hist
   A  in one process,
   B  in a fresh process (other hash seeds, other address layout),
   C  in a third process, after other histories and twice in a row (other worlds earlier in the same process),
-and the four transcripts - results, handles, join rows, event streams, destroyed values, the harness ledger -
+  D  (the panic-free ones) from a destructor while a panic raised by the caller unwinds,
+  E  in a process with a logger installed that listens at every level and with lazy closures taking 9 ms each,
+and all transcripts - results, handles, join rows, event streams, destroyed values, the harness ledger -
 must be identical and equal to the extracted model's.  The save/load domain is run twice the same way
 (serialised data compared after parsing)."""
 import collections
@@ -229,11 +231,12 @@ def check_determinism(pid, tier, seed):
             theorems=proof["theorems"], axioms=proof["axioms"], proof_failures=proof["failures"],
             correspondence=dict(required="corr:world/faithful", faithful_equal=len(results) - len(diverged),
                                 faithful_diverged=len(diverged)),
-            evaluations=4 * len(hists) + len(calm), distinct=len(distinct), distinct_nontrivial=hashy,
+            evaluations=5 * len(hists) + len(calm), distinct=len(distinct), distinct_nontrivial=hashy,
             driven_while_a_callers_panic_unwinds=len(calm),
             rule="every history executed in three processes (A; B fresh; C shuffled order, each history twice in a row), "
-                 "the panic-free ones once more from a destructor while a panic raised by the caller unwinds (D), and "
-                 "on the extracted model; all transcripts (results, handles, join rows, event streams, destroyed values, "
+                 "the panic-free ones once more from a destructor while a panic raised by the caller unwinds (D), all "
+                 "of them once more in a process with a logger installed that listens at every level and with lazy "
+                 "closures taking 9 ms each (E), and on the extracted model; all transcripts (results, handles, join rows, event streams, destroyed values, "
                  "ledger) must be identical; non-trivial = " + p["nontrivial"],
             generator=dict(gstats), op_histogram=dict(ophist), saveload=sl_note,
             samples=[dict(history=wg.pretty(h)[:1200], transcript=(a[k][0][:1200] if a else None))
